@@ -370,8 +370,9 @@ class Check:
         if self.exhaustive is not None:
             ev['coverage']['exhaustive'] = self.exhaustive
         ev['coverage'].update(self.notes)
-        (VERIF / 'evidence').mkdir(exist_ok=True)
-        (VERIF / 'evidence' / f'{self.prop}.json').write_text(json.dumps(ev, indent=1, default=str) + '\n')
+        evdir = Path(os.environ.get('VERIF_EVIDENCE_DIR') or VERIF / 'evidence')     # seed tests write elsewhere
+        evdir.mkdir(exist_ok=True)
+        (evdir / f'{self.prop}.json').write_text(json.dumps(ev, indent=1, default=str) + '\n')
         for e in self.known.entries:
             if e.get('property') == self.prop and e.get('status') == 'open' and e['id'] in self.known_hit:
                 print(f"KNOWN-FINDING: property={self.prop} {e['id']}: {e['what']} "
